@@ -51,6 +51,32 @@ CHECKS += [
          technique='static analysis: taint of per-run tokenizer state from an arbitrary previous state in the abstract interpreter; effect analysis (purity of validators, no module-level mutable state, fresh objects per split, close->rewind)',
          text='Proves that no decision or delivered value of the tokenizer reads state left by an earlier run (all C01-C04 obligations hold from an arbitrary start), and decides purity / freshness / rewind facts structurally.',
          note=TOK_NOTE),
+ ]
+CHECKS += [
+    dict(id='C07', engine='E4-provenance', level='other', design_ref='DESIGN.md 4.7',
+         technique='static analysis: provenance terms of the energy decision normalised by rewrite rules (log/sqrt/clip), dtype table and reshape checks, selector dispatch by path enumeration with linear region comparison',
+         text='Decides the formula shape (>=, 10*log10(mean square, last axis), -200 dB floor), the decoding table, the de-interleave, max-aggregation for None/any, and the selector guard region [-channels, channels). numpy numerics are not decided.',
+         note=STRUCT_NOTE),
+    dict(id='C09', engine='E4-provenance', level='other', design_ref='DESIGN.md 4.9, B.3',
+         technique='static analysis: census of every alias-key read (long-name-wins idiom), source-factory dispatch by path enumeration, limiter formulas, role rule',
+         text='Decides that every short alias is read only as fallback of its long name, that split() normalises what it hands down, the container dispatch (stdin/bytes/file x raw/wav x lazy/eager) and the max_read limiter formulas. Equality of region lists across containers is not computed.',
+         note=STRUCT_NOTE),
+    dict(id='C11', engine='E4-provenance', level='other', design_ref='DESIGN.md 4.11',
+         technique='static analysis: sibling agreement of all read() implementations resolved through the MRO (open-check first, never empty bytes, whole-sample request), buffer cursor/position formulas and guards, role rule',
+         text='Decides per-operation facts for all 5 concrete sources (open test first -> AudioIOError, None-or-non-empty results, size*width*channels requests, cursor arithmetic, position setter/guards, rewind/close). History equivalence as a whole is argued from these facts.',
+         note=STRUCT_NOTE),
+    dict(id='C16', engine='E4-provenance', level='other', design_ref='DESIGN.md 4.16',
+         technique='static analysis: provenance of the byte bounds of AudioRegion.__getitem__ (alignment, accepted normalisations), index validation guards, seconds/millis view formulas',
+         text='Decides that both byte bounds are sample index x bytes-per-sample with only behaviour-preserving normalisations, the TypeError guards, len, and the int/round conversions of the time views. The float claim "within one sample period" is not decided.',
+         note=STRUCT_NOTE),
+    dict(id='C17', engine='E4-provenance + E6-effects', level='other', design_ref='DESIGN.md 4.17',
+         technique='static analysis: operator provenance terms, exhaustiveness of the compatibility check over {rate,width,channels}, frozen-dataclass and who-may-setattr census, write-effect analysis of all operators',
+         text='Decides byte-level provenance of + * join make_silence, the parameter check coverage and placement, equality fields, immutability (frozen, no operand writes), and contiguity/length shape of division pieces. Piece-count arithmetic is not decided.',
+         note=STRUCT_NOTE),
+    dict(id='C18', engine='E4-provenance + E5-nullness', level='other', design_ref='DESIGN.md 4.18',
+         technique='static analysis: role agreement of wave writer/reader, to_file dispatch, save() placeholder provenance and exists_ok test-before-write on every path, skip/max_read conversion formulas and read order, nullness of the loaded data',
+         text='Decides writer/reader role agreement, format dispatch, placeholder sources, overwrite refusal before writing, round(skip*rate)/round(max_read*rate) and that no None reaches AudioRegion. Round-trip equality as a value is not computed.',
+         note=STRUCT_NOTE),
 ]
 _PENDING = 'check not built yet in this session (planned in DESIGN.md section 4); not claimed until its checker exists'
 _DONE = {c['id'] for c in CHECKS}
